@@ -79,6 +79,7 @@ class Check:
         self.assumptions: List[str] = []
         self.selftest: Optional[dict] = None
         self.sweep: Optional[dict] = None
+        self.benign: Optional[dict] = None
 
     # -- recording ----------------------------------------------------------
     @contextlib.contextmanager
@@ -231,6 +232,7 @@ class Check:
                 "notes": self.notes,
                 "selftest": self.selftest,
                 "mutation_sweep": self.sweep,
+                "benign_sweep": self.benign,
             },
             "assumptions": TRUSTED_BASE + self.assumptions,
             "wall_s": round(wall, 3),
